@@ -679,7 +679,8 @@ def kernels(tier):
     names = QUICK if tier == "quick" else list(PROGRAMS)
     ks = [("ham", dict(program=n)) for n in names]
     # the Hamiltonian on a coarser grid: at every time of the emulator's own sampling grid it is still the formula
-    sub = [("xy_slm", 0.5), ("ising_all", 0.7)] if tier == "quick" else [(n, r) for n in PROGRAMS for r in (0.5, 0.31)]
+    sub = [("xy_slm", 0.5), ("ising_all", 0.7)] if tier == "quick" else [
+        (n, r) for n in PROGRAMS for r in (0.5, 0.31) if not (r == 0.31 and n in ("idle", "ramp_local"))]  # (the emulator needs >= 4 points)
     ks += [("ham", dict(program=n, rate=r)) for n, r in sub]
     # the Hamiltonian after configuration changes / through the noiseless view (collapse operators do not enter H)
     rec = [("perm", "spam_then_reset"), ("xy_plain", "spam_then_reset"), ("two_glob", "noiseless_view"), ("dmm", "dephasing"),
